@@ -94,6 +94,7 @@ struct Rep {
   Set conv_back(const Set &ns) const { Set c; for (auto &nd : numa) if (ns.count(nd.os)) c.insert(nd.cpus.begin(), nd.cpus.end()); return c; }   // hwloc_cpuset_from_nodeset
 };
 
+static unsigned long g_allowed_narrower = 0;
 struct GenSet {
   Set s; bool infinite = false; unsigned inf_from = 0; hwloc_bitmap_t bm = nullptr;
   std::string str() const { std::string o = s.empty() && infinite ? "" : sstr(s); if (infinite) o += (o.empty() ? "" : ",") + std::to_string(inf_from) + "-"; return o; }
@@ -203,7 +204,7 @@ struct BindMachine : Machine {
         else if (k == 1) { o = Op("alloc"); o.set("r", r).set("pages", 1 + ops.below(6)); }
         else { o = Op(k == 2 ? "alloc_membind_policy" : "alloc_membind"); o.set("r", r).set("pages", 1 + ops.below(6)).set("cls", cls).setu("ss", ss).set("pol", gen_policy(ops)).setu("fl", (uint32_t)gen_mem_flags(ops)); }
       } else if (gn == "dup") { o = Op("dup"); o.set("r", r); }
-      else if (gn == "reload") { o = Op("reload"); o.set("how", ops.below(4)).setu("tf", ops.below(8)).set("keep", ops.below(2)); }
+      else if (gn == "reload") { if (ops.chance(1, 3)) { o = Op("allow"); o.set("r", r).setu("ss", ss); } else { o = Op("reload"); o.set("how", ops.below(4)).setu("tf", ops.below(16)).set("keep", ops.below(2)); } }
       else if (gn == "hotplug") { o = Op("hotplug"); o.set("cpu", ops.below(256)).set("on", ops.below(3) == 0); }
       else { o = Op("load_native"); o.set("x86", ops.below(3) ? 1 : 0).set("off", ops.chance(1, 2) ? (int64_t)ops.below(64) : 0).setu("ms", ops.next() >> 1); }
       p.ops.push_back(o);
@@ -336,6 +337,7 @@ struct BindMachine : Machine {
       default: {   // what hwloc itself reports as allowed (narrower than the topology under INCLUDE_DISALLOWED): a legal set that does not cover the topology
         hwloc_const_bitmap_t al = node ? hwloc_topology_get_allowed_nodeset(R.t) : hwloc_topology_get_allowed_cpuset(R.t);
         for (int x = hwloc_bitmap_first(al); x >= 0; x = hwloc_bitmap_next(al, x)) o.s.insert((unsigned)x);
+        if (o.s != T && !o.s.empty()) g_allowed_narrower++;
         if (g.chance(1, 3)) { Set e = subset(minus(T, o.s), false); if (e != minus(T, o.s)) o.s.insert(e.begin(), e.end()); }   // ... or a proper superset of it inside the topology
         break; }
     }
@@ -726,16 +728,28 @@ struct BindMachine : Machine {
   void op_reload(Run &r, const Op &o) {
     int how = (int)(o.u("how") % 4); if (how == 0) how = 3;     // 1 flag, 2 envvar, 3 x86 (twice as likely)
     if (src_kind == "x86") how = 3;
-    unsigned long tf = 0; unsigned sel = (unsigned)o.u("tf");
+    unsigned long tf = 0; unsigned sel = (unsigned)o.u("tf"); bool incl = sel & 8; sel &= 7;
     if (sel & 1) tf |= HWLOC_TOPOLOGY_FLAG_RESTRICT_TO_CPUBINDING;
     if ((sel & 2) && how != 3) tf |= HWLOC_TOPOLOGY_FLAG_RESTRICT_TO_MEMBINDING;
     if (sel == 6 && how == 3) tf = HWLOC_TOPOLOGY_FLAG_DONT_CHANGE_BINDING;
     if (sel >= 4 && how != 3) tf = 0;
+    if (incl) tf |= HWLOC_TOPOLOGY_FLAG_INCLUDE_DISALLOWED;   // then hwloc_topology_allow() can make the allowed set narrower than the topology set
     hwloc_topology_t t = nullptr;
     judged_load(r, how == 3 ? "reload x86" : how == 1 ? "reload IS_THISSYSTEM" : "reload HWLOC_THISSYSTEM=1", how, tf, &t, true);
     if (!t) return;
     if (o.u("keep")) { drop_rep(2); reps[2].t = t; describe(reps[2]); reps[2].how = "reload"; r.ev("  kept as r2 thissystem=%d pus=%zu nodes=%zu", (int)reps[2].thissystem, reps[2].topo.size(), reps[2].ntopo.size()); }
     else hwloc_topology_destroy(t);
+  }
+
+  // hwloc_topology_allow(CUSTOM) on a topology loaded with INCLUDE_DISALLOWED: what hwloc calls allowed becomes a strict subset of the topology
+  // cpuset; binding requests are still judged against the topology / complete sets (the statement), never against the allowed set
+  void op_allow(Run &r, const Op &o) {
+    Rep &R = pick_rep(o); if (!R.t) return;
+    if (!(hwloc_topology_get_flags(R.t) & HWLOC_TOPOLOGY_FLAG_INCLUDE_DISALLOWED) || R.topo.size() < 2) { r.ev("allow r%d: not applicable", slot_of(R)); return; }
+    Rng g(o.u("ss")); Set keep; for (unsigned x : R.topo) if (g.chance(1, 2)) keep.insert(x); if (keep.empty()) keep.insert(*R.topo.begin()); if (keep == R.topo) keep.erase(*keep.rbegin());
+    hwloc_bitmap_t cs = hwloc_bitmap_alloc(); for (unsigned x : keep) hwloc_bitmap_set(cs, x); hwloc_bitmap_t ns = hwloc_bitmap_dup(hwloc_topology_get_topology_nodeset(R.t));
+    errno = 0; int rc = hwloc_topology_allow(R.t, cs, ns, HWLOC_ALLOW_FLAG_CUSTOM); int e = errno; hwloc_bitmap_free(cs); hwloc_bitmap_free(ns);
+    r.ev("allow r%d custom {%s} -> %d errno=%d", slot_of(R), sstr(keep).c_str(), rc, rc ? e : 0); if (!rc) r.count("probe.hwloc_allowed_narrowed");
   }
 
   void op_native(Run &r, const Op &o) {
@@ -793,6 +807,7 @@ struct BindMachine : Machine {
     r.count(R0.thissystem ? "runs_thissystem" : "runs_foreign");
     if (R0.complete != R0.topo) r.count("probe.topology_with_disallowed_pus");
     int idx = 0;
+    g_allowed_narrower = 0; struct Probe { Run &r; ~Probe() { if (g_allowed_narrower) r.count("probe.set_equal_to_narrower_hwloc_allowed", g_allowed_narrower); } } probe{r};
     for (const Op &o : p.ops) {
       r.curop = o.kind; r.curopidx = idx++; r.nops++; steps_reset();
       int ep = ep_of(o.kind);
@@ -803,6 +818,7 @@ struct BindMachine : Machine {
       else if (o.kind == "free") op_free(r, o);
       else if (o.kind == "dup") op_dup(r, o);
       else if (o.kind == "reload") op_reload(r, o);
+      else if (o.kind == "allow") op_allow(r, o);
       else if (o.kind == "load_native") op_native(r, o);
       else if (o.kind == "hotplug") op_hotplug(r, o);
       else r.ev("unknown op %s ignored", o.kind.c_str());
